@@ -2690,9 +2690,8 @@ BOOST_PP_REPEAT(BOOST_PP_ADD(BOOST_MSM_VISITOR_ARG_SIZE,1), MSM_VISITOR_ARGS_EXE
      void internal_start(Event const& incomingEvent)
      {
          region_start_helper< ::boost::mpl::int_<0> >::do_start(this,incomingEvent);
-         // give a chance to handle an anonymous (eventless) transition
-         handle_eventless_transitions_helper<library_sm> eventless_helper(this,true);
-         eventless_helper.process_completion_event();
+         // the anonymous (eventless) transitions are handled by do_entry,
+         // once event processing is allowed again
      }
 
      template <class StateType>
@@ -2863,6 +2862,11 @@ BOOST_PP_REPEAT(BOOST_PP_ADD(BOOST_MSM_VISITOR_ARG_SIZE,1), MSM_VISITOR_ARGS_EXE
             // if the event is generating a direct entry/fork, set the current state(s) to the direct state(s)
             direct_event_start_helper(this)(incomingEvent,fsm);
         }
+        // give a chance to handle an anonymous (eventless) transition
+        // BEFORE any event generated and blocked in the init calls
+        // (the source flag keeps the queues for the code below)
+        handle_eventless_transitions_helper<library_sm> eventless_helper(this,true);
+        eventless_helper.process_completion_event(::boost::msm::back::EVENT_SOURCE_DEFERRED);
         // handle messages which were generated and blocked in the init calls
         // look for deferred events waiting
         handle_defer_helper<library_sm> defer_helper(m_deferred_events_queue,this);
